@@ -127,19 +127,20 @@ type listT struct {
 	v       *ty.Val
 	aliased bool
 	tag     string
+	mk      func() *ty.Val // custom instantiation (lists whose elements share one backing array)
 }
 
 func (g *G) lists(t *ty.Ty, pool []*ty.Val) []listT {
 	var out []listT
 	add := func(tag string, spare int, es ...*ty.Val) {
-		out = append(out, listT{slice(append([]*ty.Val(nil), es...), spare), false, tag})
+		out = append(out, listT{v: slice(append([]*ty.Val(nil), es...), spare), tag: tag})
 	}
-	out = append(out, listT{nilv(), false, "nil"})
+	out = append(out, listT{v: nilv(), tag: "nil"})
 	add("empty", 0)
 	a := pool[0]
 	add("single", 0, a)
 	add("dup", 0, a, a)
-	out = append(out, listT{slice([]*ty.Val{a, a}, 0), true, "dup-aliased"})
+	out = append(out, listT{v: slice([]*ty.Val{a, a}, 0), aliased: true, tag: "dup-aliased"})
 	if len(pool) > 1 {
 		b := pool[1]
 		add("pair", 0, a, b)
@@ -165,6 +166,32 @@ func (g *G) lists(t *ty.Ty, pool []*ty.Val) []listT {
 			add("lex-vs-len", 0, long2, short1)
 			add("lex-vs-len", 1, long2, nilv(), short1, slice(nil, 0))
 			add("lex-vs-len", 0, slice(nil, 0), long2, nilv(), short1, long2)
+		}
+	}
+	// slice-typed elements that are views of ONE backing array from the same start with different
+	// lengths (buf[:1], buf[:2], …), mixed with independent copies of the same contents and nil:
+	// Compare / Equal must look at lengths and contents, never at the address of the first element
+	if u := g.env.Under(t); u.K == ty.Slice {
+		in := g.vg.Pool(u.Elem)
+		tmpl := make([]*ty.Val, 4)
+		for j := range tmpl {
+			tmpl[j] = in[[]int{0, 1, 0, 2}[j]%len(in)]
+		}
+		// shape entries: k > 0 view buf[:k]; k < 0 independent copy of buf[:-k]; 0 nil
+		for _, shape := range [][]int{{4, 3, 2, 1}, {1, 2, 3, 4}, {2, -3, 1, -2, 3}, {3, 1}, {1, 3, 0, 2}, {-2, 2, 4, -4}} {
+			shape := shape
+			rep := make([]*ty.Val, len(shape))
+			for j, k := range shape {
+				switch {
+				case k == 0:
+					rep[j] = nilv()
+				case k > 0:
+					rep[j] = slice(tmpl[:k], len(tmpl)-k)
+				default:
+					rep[j] = slice(tmpl[:-k], 0)
+				}
+			}
+			out = append(out, listT{v: slice(rep, 0), tag: "views", mk: func() *ty.Val { return g.viewList(tmpl, shape) }})
 		}
 	}
 	// Equal-but-not-identical elements: a value followed by its identity variants
@@ -216,8 +243,34 @@ func (g *G) lists(t *ty.Ty, pool []*ty.Val) []listT {
 	return out
 }
 
+// viewList instantiates one buffer and returns the list of its prefix views / independent copies / nil
+// described by shape (k > 0: buf[:k] sharing the buffer's address id; k < 0: a copy of buf[:-k]; 0: nil).
+func (g *G) viewList(tmpl []*ty.Val, shape []int) *ty.Val {
+	es := g.views(tmpl, shape)
+	return &ty.Val{K: ty.VSlice, Addr: g.vg.Fresh(), Elems: es}
+}
+
+func (g *G) views(tmpl []*ty.Val, shape []int) []*ty.Val {
+	buf := g.vg.Inst(slice(tmpl, 0))
+	es := make([]*ty.Val, len(shape))
+	for j, k := range shape {
+		switch {
+		case k == 0:
+			es[j] = nilv()
+		case k > 0:
+			es[j] = &ty.Val{K: ty.VSlice, Addr: buf.Addr, Spare: len(tmpl) - k, Elems: buf.Elems[:k]}
+		default:
+			es[j] = g.vg.Inst(slice(tmpl[:-k], 0))
+		}
+	}
+	return es
+}
+
 // inst instantiates a list template with fresh addresses (or one object per template when aliased).
 func (g *G) inst(l listT) *ty.Val {
+	if l.mk != nil {
+		return l.mk()
+	}
 	if !l.aliased || l.v.K == ty.VNil {
 		return g.vg.Inst(l.v)
 	}
@@ -264,6 +317,20 @@ func (g *G) scripts(n int) []string {
 	// true up to a late first false (takewhile / all boundary)
 	out = append(out, all1[:n]+"0")
 	return out
+}
+
+// viewTmpl: the buffer template for view lists of a slice-typed element type (nil otherwise)
+func (g *G) viewTmpl(t *ty.Ty) []*ty.Val {
+	u := g.env.Under(t)
+	if u.K != ty.Slice {
+		return nil
+	}
+	in := g.vg.Pool(u.Elem)
+	tmpl := make([]*ty.Val, 4)
+	for j := range tmpl {
+		tmpl[j] = in[[]int{0, 1, 0, 2}[j]%len(in)]
+	}
+	return tmpl
 }
 
 func isBoolUnder(env *ty.Env, t *ty.Ty) bool {
@@ -370,6 +437,12 @@ func (g *G) elemOps(i int, t *ty.Ty) {
 					g.ow.op(mm+"2", tn, v.Wire(), g.vg.Inst(a).Wire())
 				}
 			}
+			if vt := g.viewTmpl(t); vt != nil {
+				for _, sh := range [][]int{{1, 3}, {3, 1}, {2, 2}, {2, -2}, {4, 3}, {-3, 4}} {
+					vs := g.views(vt, sh)
+					g.ow.op(mm+"2", tn, vs[0].Wire(), vs[1].Wire())
+				}
+			}
 		}
 	}
 	if g.want["contains"] {
@@ -392,6 +465,14 @@ func (g *G) elemOps(i int, t *ty.Ty) {
 					g.ow.op("contains", tn, g.inst(l).Wire(), g.vg.Inst(mu).Wire())
 				}
 			}
+		}
+	}
+	if vt := g.viewTmpl(t); vt != nil && g.want["contains"] {
+		// the item is a view of the same buffer as elements of the list
+		for _, sh := range [][]int{{3, 2}, {-2, 3, 2}, {3, 1, 2}, {4, 1, 3}, {-3, 1, 3}} {
+			vs := g.views(vt, sh)
+			l := &ty.Val{K: ty.VSlice, Addr: g.vg.Fresh(), Elems: vs[:len(vs)-1]}
+			g.ow.op("contains", tn, l.Wire(), vs[len(vs)-1].Wire())
 		}
 	}
 	if g.want["unique"] {
@@ -686,6 +767,44 @@ func (g *G) keyMaps(kpool []*ty.Val, val func() *ty.Val) []*ty.Val {
 	return out
 }
 
+// nanKeys: NaN values of a float / complex key type (canonical quiet NaN bit patterns only)
+func nanKeys(u *ty.Ty) []*ty.Val {
+	if u.K != ty.Basic {
+		return nil
+	}
+	q64, q32 := math.Float64bits(math.NaN()), uint64(math.Float32bits(float32(math.NaN())))
+	one64, one32 := math.Float64bits(1.5), uint64(math.Float32bits(1.5))
+	switch u.B {
+	case "float64":
+		return []*ty.Val{{K: ty.VFlt, W: 64, Bits: q64}}
+	case "float32":
+		return []*ty.Val{{K: ty.VFlt, W: 32, Bits: q32}}
+	case "complex128":
+		return []*ty.Val{{K: ty.VCplx, W: 64, Bits: q64, Bits2: 0}, {K: ty.VCplx, W: 64, Bits: one64, Bits2: q64}, {K: ty.VCplx, W: 64, Bits: q64, Bits2: q64}}
+	case "complex64":
+		return []*ty.Val{{K: ty.VCplx, W: 32, Bits: q32, Bits2: 0}, {K: ty.VCplx, W: 32, Bits: one32, Bits2: q32}, {K: ty.VCplx, W: 32, Bits: q32, Bits2: q32}}
+	}
+	return nil
+}
+
+func isNaNVal(v *ty.Val) bool {
+	nan := func(w int, bits uint64) bool {
+		if w == 32 {
+			f := math.Float32frombits(uint32(bits))
+			return f != f
+		}
+		f := math.Float64frombits(bits)
+		return f != f
+	}
+	switch v.K {
+	case ty.VFlt:
+		return nan(v.W, v.Bits)
+	case ty.VCplx:
+		return nan(v.W, v.Bits) || nan(v.W, v.Bits2)
+	}
+	return false
+}
+
 func (g *G) keyOps(i int, k *ty.Ty) {
 	env := g.env
 	gk := k.Go(env, "main")
@@ -700,7 +819,21 @@ func (g *G) keyOps(i int, k *ty.Ty) {
 		fmt.Fprintf(q, "\nfunc Keys_%d(m map[%s]int) []%s { return deriveKeys_%d(m) }\n", i, gk, gk, i)
 		fmt.Fprintf(g.m, "\trt.Reg(\"keys\", %q, rt.Keys(%s.Keys_%d))\n", tn, qn, i)
 		n := 0
-		for _, m := range g.keyMaps(kpool, func() *ty.Val { return &ty.Val{K: ty.VInt, Int: fmt.Sprint(g.rng.Intn(5))} }) {
+		// Keys must return every key, NaN keys included (each NaN key is an entry of its own): float and
+		// complex key types get the canonical quiet NaN once and twice among ordinary keys, zeros, infinities.
+		// (only here: the order clauses of sort / min / max and the set operations are stated NaN-free)
+		kp := append([]*ty.Val(nil), kpool...)
+		if nan := nanKeys(env.Under(k)); nan != nil {
+			kp = append(append([]*ty.Val{nan[0], nan[0]}, kp...), nan...)
+			g.stat("keys-nan-key-types", 1)
+		}
+		for _, m := range g.keyMaps(kp, func() *ty.Val { return &ty.Val{K: ty.VInt, Int: fmt.Sprint(g.rng.Intn(5))} }) {
+			for j := 0; j < len(m.Elems); j += 2 {
+				if isNaNVal(m.Elems[j]) {
+					g.stat("keys-maps-with-nan", 1)
+					break
+				}
+			}
 			g.stat(fmt.Sprintf("keys-map-len:%d", len(m.Elems)/2), 1)
 			g.ow.op("keys", tn, g.vg.Inst(m).Wire())
 			n++
@@ -748,14 +881,16 @@ func main() {
 		n(5), p(n(5)), p(n(6)), ty.Sl(b("int")), n(6), p(n(7)), p(n(17)), b("complex128"), n(3),
 		ty.Sl(b("byte")), ty.Sl(b("string")), ty.Ar(2, b("int")), n(22),
 		// pointers to basics: ordered and compared through the pointer, nil first, never by identity
-		p(b("int")), p(b("string"))}
-	keys := []*ty.Ty{b("int"), b("string"), n(0), n(5), ty.Ar(2, b("int")), b("float64")}
+		p(b("int")), p(b("string")),
+		// a NAMED float inside non-comparable elements: -0 / +0 are Equal and must land in one hash bucket
+		ty.Sl(n(2)), p(n(2)), p(n(36))}
+	keys := []*ty.Ty{b("int"), b("string"), n(0), n(5), ty.Ar(2, b("int")), b("float64"), b("float32"), b("complex128"), n(2)}
 	results := []*ty.Ty{b("int"), b("string"), p(n(5)), ty.Sl(b("int")), n(5), b("bool"), b("float64"), n(1)}
 	cap, maxLen, nRandom := 6, 7, 8
 	if *thorough {
 		elems = append(elems, b("int8"), b("uint64"), b("float32"), b("int32"), p(b("float64")), ty.Sl(b("int8")),
 			ty.M(b("string"), b("int")), n(14), n(10), p(n(8)), n(20), n(16), ty.Sl(p(n(5))), n(11), ty.Sl(ty.Sl(b("byte"))), ty.Ar(2, ty.Sl(b("byte"))))
-		keys = append(keys, n(1), n(2), b("bool"), b("uint8"), n(14), ty.Ar(2, n(5)))
+		keys = append(keys, n(1), b("bool"), b("uint8"), n(14), ty.Ar(2, n(5)), b("complex64"))
 		results = append(results, p(n(6)), n(0), b("uint8"), ty.M(b("string"), b("int")))
 		cap, maxLen, nRandom = 10, 12, 40
 	}
